@@ -68,6 +68,47 @@ let () =
       let slen = ref 0 in
       let has_oracle = ref false in
       let crashed = ref false in
+      (* case flag 'a': the instrumented model (BTreeAllocModel) runs alongside and its allocator events since the
+         previous op are printed as a structural token "t:A<serial>:a:<size>,F<serial>:a,..." *)
+      let tracing = String.contains flags 'a' in
+      let bits a = List.init (String.length a) (fun i -> a.[i] = '1') in
+      let (ops, new_oracle) = match ops with
+        | o :: rest when String.length o > 0 && o.[0] = 'N' ->
+          has_oracle := true; (rest, bits (String.sub o 1 (String.length o - 1)))
+        | _ -> (ops, []) in
+      let (at0, ast0) = BTreeAllocModel.anew_op (AllocModel.ast0 new_oracle) in
+      let ast = ref ast0 in
+      let atr = ref (match at0 with Some a -> a
+                                  | None -> { BTreeAllocModel.a_self = O; a_root = BTreeAllocModel.adnode; a_size = BinNums.Z0 }) in
+      let put_trace () =
+        if tracing then begin
+          let ev = List.map (function
+              | FaultSpec.EAlloc (_, k, id) ->
+                Printf.sprintf "A%d:%s:%d" (int_of_nat id) (match k with FaultSpec.Aligned -> "a" | FaultSpec.Plain -> "p") page
+              | FaultSpec.EFree (_, k, id) ->
+                Printf.sprintf "F%d:%s" (int_of_nat id) (match k with FaultSpec.Aligned -> "a" | FaultSpec.Plain -> "p"))
+              !ast.AllocModel.log in
+          Printf.bprintf ms "t:%s " (if ev = [] then "-" else String.concat "," ev);
+          ast := { !ast with AllocModel.log = [] }
+        end in
+      let run_instrumented op arg =
+        match op.[0] with
+        | 'i' ->
+          let e = Scanf.sscanf arg "%d.%d" (fun a b -> (a, b)) in
+          let (((_, t'), s'), _) = BTreeAllocModel.ainsert_op rank dflt ln inn !ast !atr e in
+          atr := t'; ast := s'
+        | 'r' ->
+          let ((((_, _), t'), s'), _) = BTreeAllocModel.aremove_op rank dflt ln inn !ast !atr (int_of_string arg, -1) in
+          atr := t'; ast := s'
+        | 'c' | 'C' ->
+          let (t', s') = BTreeAllocModel.aclear_op !ast !atr in
+          atr := t'; ast := s'
+        | 'O' -> ast := { !ast with AllocModel.oracle = bits arg }
+        | _ -> () in
+      if at0 = None then begin
+        put_trace ();
+        Printf.printf "M NO-TREE live=0 || %s\nS *\n" (Buffer.contents ms)
+      end else
       let tag_or_end r it = match it with
         | BTreeModel.IEnd -> "end"
         | _ -> string_of_int (snd (BTreeModel.iter_get dflt r it)) in
@@ -88,9 +129,11 @@ let () =
         Printf.bprintf so "%s:%d:%s:%d " mark (List.length stags) (seq_str (seq_of stags))
           (if mark = "F" then List.length !spec else 0) in
       begin
+        put_trace ();
         List.iter (fun op ->
           let arg = String.sub op 1 (String.length op - 1) in
-          match op.[0] with
+          (if tracing then run_instrumented op arg);
+          (match op.[0] with
           | 'i' ->
             let (k, tg) = Scanf.sscanf arg "%d.%d" (fun a b -> (a, b)) in
             let e = (k, tg) in
@@ -219,10 +262,13 @@ let () =
             List.iter (fun a -> List.iter (fun b -> Buffer.add_char so (if a = b then '1' else '0')) pos) pos;
             Buffer.add_char so ' '
           | _ ->
-            Printf.bprintf mo "?%s " op; Printf.bprintf ms "? "; Printf.bprintf so "?%s " op) ops;
+            Printf.bprintf mo "?%s " op; Printf.bprintf ms "? "; Printf.bprintf so "?%s " op);
+          put_trace ()) ops;
         let remaining = int_of_z (BTreeModel.btree_size !t) in
         let (_, lg) = BTreeModel.clear !t true in
         destroyed "F" lg remaining;
+        (if tracing then ast := BTreeAllocModel.afree_op !ast !atr);
+        put_trace ();
         (* the spec's remaining size *)
         Printf.bprintf mo "ud=ok roles=ok live=0 stored=0";
         Printf.bprintf so "ud=ok roles=ok * stored=0";
